@@ -866,6 +866,8 @@ func evalPartial(node *jparse.PartialNode, data reflect.Value, env *environment)
 		return undefined, newEvalError(ErrNonCallablePartial, node.Func, nil)
 	}
 
+	fn = withContext(fn, data)
+
 	f := &partialCallable{
 		callableName: callableName{
 			name: fn.Name() + "_partial",
@@ -887,6 +889,25 @@ type contextSetter interface {
 	SetContext(reflect.Value)
 }
 
+// withContext returns the callable to use for a call made with
+// the given evaluation context. Go callables (the built-in
+// functions and extensions) are shared by all expressions,
+// evaluations and goroutines, so the call-specific name and
+// context must not be stored in the shared object. Use a copy.
+func withContext(fn jtypes.Callable, context reflect.Value) jtypes.Callable {
+
+	if f, ok := fn.(*goCallable); ok {
+		clone := *f
+		fn = &clone
+	}
+
+	if setter, ok := fn.(contextSetter); ok {
+		setter.SetContext(context)
+	}
+
+	return fn
+}
+
 func evalFunctionCall(node *jparse.FunctionCallNode, data reflect.Value, env *environment) (reflect.Value, error) {
 	v, err := eval(node.Func, data, env)
 	if err != nil {
@@ -898,14 +919,12 @@ func evalFunctionCall(node *jparse.FunctionCallNode, data reflect.Value, env *en
 		return undefined, newEvalError(ErrNonCallable, node.Func, nil)
 	}
 
+	fn = withContext(fn, data)
+
 	if setter, ok := fn.(nameSetter); ok {
 		if sym, ok := node.Func.(*jparse.VariableNode); ok {
 			setter.SetName(sym.Name)
 		}
-	}
-
-	if setter, ok := fn.(contextSetter); ok {
-		setter.SetContext(data)
 	}
 
 	argv := make([]reflect.Value, len(node.Args))
@@ -953,6 +972,8 @@ func evalFunctionApplication(node *jparse.FunctionApplicationNode, data reflect.
 	if !ok {
 		return undefined, newEvalError(ErrNonCallableApply, node.RHS, "~>")
 	}
+
+	f2 = withContext(f2, data)
 
 	// If the left hand side is not callable, call the right
 	// hand side using the left hand side as the argument.
